@@ -7,7 +7,8 @@ LEVEL = ("Mechanism level: the single call-request insertion site and its two gu
          "addressed to this peer), the pending mark persisted in the same run with the same id, the decision table of "
          "handle_prev_state (an own pending request is never re-issued, a met state is never dropped), the single "
          "consumer of call_results followed by exactly one recorded state, and the merge table preferring a result over "
-         "a pending request. Necessary conditions of the property; multi-run histories are not decided.")
+         "a pending request. Necessary conditions of the property; multi-run histories are not decided."
+         " Added: merge(RequestSentBy, RequestSentBy) keeps the previous (own) pending mark; a call that ends without a result marks the subgraph incomplete.")
 
 
 def check(ctx):
